@@ -65,11 +65,14 @@ pub struct Scenario {
     pub max_readers: usize,
     /// a commit is not a transition while a reader has been open across this many commits
     pub reader_commit_limit: Option<u64>,
+    /// C06: a committed transaction that contains calls which return an error must leave exactly
+    /// the file (and shared bookkeeping) that the same transaction without those calls leaves
+    pub failed_calls_noop: bool,
 }
 
 impl Scenario {
     pub fn new(name: &str, cfg: Cfg, setup: Vec<Action>, alphabet: Box<dyn Alphabet>, depth: usize, oracles: Oracles) -> Scenario {
-        Scenario { name: name.into(), cfg, setup, alphabet, depth, oracles, extra_probes: vec![], bisim_followups: vec![], drop_keeps_digest: false, poison_unmap: false, rel_digest: false, page_budget: None, state_cap: 3_000_000, max_readers: 3, reader_commit_limit: None }
+        Scenario { name: name.into(), cfg, setup, alphabet, depth, oracles, extra_probes: vec![], bisim_followups: vec![], drop_keeps_digest: false, poison_unmap: false, rel_digest: false, page_budget: None, state_cap: 3_000_000, max_readers: 3, reader_commit_limit: None, failed_calls_noop: false }
     }
 
     pub fn history(&self, h: &[u32]) -> History {
@@ -82,6 +85,8 @@ impl Scenario {
 }
 
 struct TransResult {
+    /// C06: the same transaction with its failing calls replaced by lookups (to be compared)
+    twin: Option<Action>,
     live: u64,
     digest: Option<u128>,
     violations: Vec<Violation>,
@@ -132,7 +137,7 @@ fn start_runner(sc: &Scenario, path: &str, base: Option<&BaseImage>) -> Result<R
 
 /// Runs setup + history + one action on a fresh file, on the calling thread.
 fn run_transition(sc: &Scenario, path: &str, h: &[u32], a: Option<usize>, base: Option<&BaseImage>) -> TransResult {
-    let mut res = TransResult { live: 0, digest: None, violations: vec![], shape: (0, 0, 0), pages: 0, reads: 0, ops: 0 };
+    let mut res = TransResult { twin: None, live: 0, digest: None, violations: vec![], shape: (0, 0, 0), pages: 0, reads: 0, ops: 0 };
     let use_base = base.is_some() && !(a.is_none() && h.is_empty());
     let mut r = match start_runner(sc, path, if use_base { base } else { None }) {
         Ok(r) => r,
@@ -186,8 +191,12 @@ fn run_transition(sc: &Scenario, path: &str, h: &[u32], a: Option<usize>, base: 
             return res;
         }
         let before = if sc.drop_keeps_digest && is_noncommitting(&act) { Some(r.digest()) } else { None };
+        let twin = if sc.failed_calls_noop { twin_without_failed_calls(&r.model, &act) } else { None };
         let v = r.step(&act, &sc.oracles);
         res.violations.extend(v);
+        if !r.poisoned {
+            res.twin = twin;
+        }
         if !r.poisoned {
             if let Some(b) = before {
                 if r.digest() != b {
@@ -221,6 +230,33 @@ fn run_transition(sc: &Scenario, path: &str, h: &[u32], a: Option<usize>, base: 
         }
     }
     res
+}
+
+/// The same committing transaction with every call the reference model answers with an error
+/// replaced by a plain lookup of the bucket it addressed (None: no such call in it).
+fn twin_without_failed_calls(model: &crate::refmodel::BucketM, a: &Action) -> Option<Action> {
+    use crate::refmodel::{OpSpec, Ret};
+    let Action::Tx { ops, commit: true } = a else { return None };
+    let mut m = model.clone();
+    let mut out: Vec<OpSpec> = vec![];
+    let mut replaced = 0;
+    for o in ops {
+        let op = o.to_op();
+        let path_ok = m.resolve(op.path()).is_ok();
+        match m.apply(&op) {
+            Ret::Err(_) if path_ok => {
+                replaced += 1;
+                if let Some((last, front)) = o.path.split_last() {
+                    out.push(OpSpec { kind: "getb".into(), path: front.to_vec(), key: last.clone(), val: None });
+                }
+            }
+            _ => out.push(o.clone()),
+        }
+    }
+    if replaced == 0 || replaced == ops.len() && false {
+        return None;
+    }
+    Some(Action::Tx { ops: out, commit: true })
 }
 
 fn is_noncommitting(a: &Action) -> bool {
@@ -295,6 +331,20 @@ pub fn worker(idx: usize) {
             let probe = crate::fresh::rs_probe();
             let r = real::guarded(|| {
                 let mut res = run_transition(sc, &path, &h, a, base);
+                // C06: calls that returned an error inside a committed transaction must not change
+                // what the commit writes (both variants on fresh threads, same hash-seed position)
+                if let (Some(tw), Some(ai)) = (res.twin.take(), a) {
+                    let sc_s: &'static Scenario = unsafe { &*(sc as *const Scenario) };
+                    let base_s: Option<&'static BaseImage> = base.map(|b| unsafe { &*(b as *const BaseImage) });
+                    let act = sc.alphabet.get(ai);
+                    let (d1, pos) = run_followup(sc_s, &path, &h, None, &act, base_s, None);
+                    let (d2, _) = run_followup(sc_s, &path, &h, None, &tw, base_s, Some(pos));
+                    if d1.is_none() || d2.is_none() {
+                        res.violations.push(Violation::new("nondeterministic_replay", "the transaction or its twin (failed calls replaced by lookups) could not be replayed"));
+                    } else if d1 != d2 {
+                        res.violations.push(Violation::new("failed_call_changed_commit", format!("the committed transaction leaves a different file (or shared bookkeeping) than the same transaction without the calls that returned an error (those replaced by plain lookups of the same buckets): {}", tw.to_json())));
+                    }
+                }
                 // C06 bisimulation: the dropped work must not influence any follow-up
                 if let Some(ai) = a {
                     let act = sc.alphabet.get(ai);
@@ -666,6 +716,18 @@ pub fn replay(v: &Value) -> i32 {
             } else {
                 run_transition(sc, &path, &idx[..idx.len() - 1], Some(idx[idx.len() - 1] as usize), base.as_ref())
             };
+            let mut res = res;
+            if let (Some(tw), false) = (res.twin.take(), idx.is_empty()) {
+                let sc_s: &'static Scenario = unsafe { &*(sc as *const Scenario) };
+                let base_s: Option<&'static BaseImage> = base.as_ref().map(|b| unsafe { &*(b as *const BaseImage) });
+                let act = sc.alphabet.get(idx[idx.len() - 1] as usize);
+                let (d1, pos) = run_followup(sc_s, &path, &idx[..idx.len() - 1], None, &act, base_s, None);
+                let (d2, _) = run_followup(sc_s, &path, &idx[..idx.len() - 1], None, &tw, base_s, Some(pos));
+                println!("twin comparison: {} vs {}: digests {:?} / {:?}", act.to_json(), tw.to_json(), d1.map(|d| format!("{:032x}", d)), d2.map(|d| format!("{:032x}", d)));
+                if d1 != d2 {
+                    res.violations.push(Violation::new("failed_call_changed_commit", format!("the committed transaction leaves a different file (or shared bookkeeping) than the same transaction without the calls that returned an error: {}", tw.to_json())));
+                }
+            }
             println!("exact replay of scenario {} indices {:?}:", scn, idx);
             for x in &res.violations {
                 println!("   !! {}: {}", x.class, x.detail);
